@@ -20,15 +20,25 @@ let act_op id = function
   | "truncrst" -> DHeadersFail (id, KTruncReset)
   | "unknown" -> DHeadersFail (id, KUnknown)
   | "malformed" -> DHeadersFail (id, KMalformed)
-  | "finish" -> DFinish id
+  | "finish" | "data" | "trailers" | "stopstream" -> DFinish id      (* send-half methods: no effect on ownership *)
+  | "recv" | "rtrailers" | "stopsending" -> DPeerReset id             (* receive-half methods: no effect on ownership *)
   | "rstafter" -> DPeerReset id
   | "drop" -> DDropStream id
   | "split" -> DSplit id
   | "dropsend" -> DDropHalf (id, true)
   | "droprecv" -> DDropHalf (id, false)
   | a -> failwith ("bad action " ^ a)
+let partial_goaway : n option ref = ref None
 let rec parse_tok tok : bop list =
   if tok = "XU" then [BLost] else
+  if tok = "H+" then (match !partial_goaway with
+                      | Some pid -> partial_goaway := None; [BOp (DPeerGoaway pid)]
+                      | None -> [BNop]) else
+  if tok.[0] = 'H' then begin
+    (match String.split_on_char ':' tok with
+     | hd :: _ -> partial_goaway := Some (num hd 1)
+     | [] -> ());
+    [BNop] end else
   match tok.[0] with
   | 'b' -> [BBlock]
   | 'W' -> [BUnblock]
@@ -42,7 +52,7 @@ and parse_dop tok : dop list =
             | hd :: acts when acts <> [] -> let id = num hd 1 in List.map (act_op id) acts
             | _ -> failwith ("bad op " ^ tok))
   | _ -> failwith ("bad op " ^ tok)
-let parse_ops s = List.concat (List.map parse_tok (String.split_on_char ',' s))
+let parse_ops s = partial_goaway := None; List.concat (List.map parse_tok (String.split_on_char ',' s))
 let opt_code = function Some c -> string_of_n c | None -> "-"
 let show_out = function
   | EWire g -> Some ("w" ^ string_of_n g)
@@ -93,7 +103,7 @@ let handle ws =
       if List.length ops <> List.length groups then "drain-bad@shape | drain-bad@shape" else begin
         let t = List.concat (List.map2 (fun o gr ->
           if gr = "skip" then []
-          else (match o with BOp d -> DI d | BBlock -> DW true | BUnblock -> DW false | BLost -> DX) :: (if gr = "." then [] else List.map (fun x -> DO (parse_out x)) (String.split_on_char ',' gr))) ops groups) in
+          else (match o with BOp d -> DI d | BBlock -> DW true | BUnblock -> DW false | BLost -> DX | BNop -> DI DPoll) :: (if gr = "." then [] else List.map (fun x -> DO (parse_out x)) (String.split_on_char ',' gr))) ops groups) in
         let v = verdict t in v ^ " | " ^ v end
   | _ -> "driver-error unknown-case"
 let () =
